@@ -1214,6 +1214,15 @@ func (x *Exec) loopHead(st *State, fr *Frame, l *Loop, from *ssa.BasicBlock) {
 	if back {
 		phase = "step"
 	}
+	// remember the state at the loop's first arrival: invariants may refer to it as entry(e)
+	if !back {
+		ne := map[int]loopEntrySnap{}
+		for k, v := range st.LoopEntry {
+			ne[k] = v
+		}
+		ne[l.N] = loopEntrySnap{copyHeap(st.Heap), st.Epoch}
+		st.LoopEntry = ne
+	}
 	// ghost lets bound at this loop's first arrival (before the havoc)
 	if x.FC != nil && !back {
 		for _, cl := range x.FC.Of("ghost") {
@@ -1307,15 +1316,6 @@ func (x *Exec) loopHead(st *State, fr *Frame, l *Loop, from *ssa.BasicBlock) {
 		st.Done = true
 		st.ExitKind = "cut"
 		return
-	}
-	// remember the state at the loop's first arrival: invariants may refer to it as entry(e)
-	{
-		ne := map[int]loopEntrySnap{}
-		for k, v := range st.LoopEntry {
-			ne[k] = v
-		}
-		ne[l.N] = loopEntrySnap{copyHeap(st.Heap), st.Epoch}
-		st.LoopEntry = ne
 	}
 	// first arrival: havoc everything the loop may modify, then assume the invariant
 	if len(lmods) > 0 {
